@@ -622,6 +622,11 @@ func c12Gen(r *rand.Rand, tier string, idx int) []string {
 			// descriptors travel without a header: only where the server is about to receive them
 			if !strings.HasPrefix(a, "fds:") || (len(ms) == 3 && ms[0] == "exver:3" && ms[1] == "mmemfd:3") {
 				ms[len(ms)-1] = a
+				if a == "fds:2" {
+					// a buffer path that is registered in this process' global table would be "mapped" from the table
+					// whatever the descriptor is (an artefact of running both ends in one process): name an unknown buffer
+					ms[1] = "mmemfdx:3"
+				}
 			}
 		}
 		return ms
